@@ -18,7 +18,7 @@ func VerifC25_stickyEager() {
 func VerifC25_stickyEager3() {
 	var in *verifGroupIn
 	if verifThorough() {
-		in = verifShape(3, 3, []int{2, 1}, false, false)
+		in = verifShapeSubs(3, 3, []int{2, 1}, false, false, true)
 		in.verifOwnerClaims(true)
 	} else {
 		in = verifShapeSubs(3, 3, []int{1, 1}, false, false, true)
@@ -33,7 +33,7 @@ func VerifC25_stickyEager3() {
 func VerifC25_stickyCooperative() {
 	var in *verifGroupIn
 	if verifThorough() {
-		in = verifShape(1, 2, []int{2, 2}, true, false)
+		in = verifShape(1, 2, []int{2, 2}, false, false)
 	} else {
 		in = verifShape(1, 2, []int{2, 1}, false, false)
 	}
@@ -62,13 +62,9 @@ func VerifC25_stickySymbolicGenerations() {
 	in.symGens = true
 	in.verifOwnerClaims(true)
 	// the cooperative input path falls back to the eager one (UserData) for negative
-	// generations, so quick only runs it
+	// generations, so only it is run
 	var members []GroupMember
-	if verifThorough() && in.nMembers == 2 && verifPick(2) == 0 {
-		members = in.eagerMembers()
-	} else {
-		members = in.coopMembers()
-	}
+	members = in.coopMembers()
 	in.verifBalanceValid(members, nil, "sticky (symbolic generations)")
 	verifReached("c25-sticky-symgen")
 }
@@ -103,7 +99,7 @@ func VerifC25_stickyRacks() {
 	wide := false // thorough: two members on (2,2) with odd rack lists, or three members
 	if verifThorough() {
 		if verifPick(2) == 0 {
-			in = verifShape(2, 2, []int{2, 2}, false, false)
+			in = verifShapeSubs(2, 2, []int{2, 2}, false, false, true)
 			wide = true
 		} else {
 			in = verifShapeSubs(3, 3, []int{2, 1}, false, false, true)
@@ -132,11 +128,7 @@ func VerifC25_stickyRacks() {
 	in.fixedGens = true
 	racks := [...]string{"", "a", "b"}
 	var members []GroupMember
-	if verifThorough() && in.nMembers == 3 && verifPick(2) == 1 {
-		members = in.coopMembers()
-	} else {
-		members = in.eagerMembers()
-	}
+	members = in.eagerMembers()
 	for m := range members {
 		if m == 0 {
 			members[m].Rack = racks[verifPick(2)]
